@@ -158,6 +158,7 @@ class Unit:
         d = self.desc
         gen.add("// GENERATED by vx from %s working tree; unit %s%s. Do not edit." % (
             REPO, self.name, " (reachability twin)" if twin else ""), ("gen", "header"))
+        gen.add("#![feature(allocator_api)]", ("gen", "header"))
         gen.add("#![allow(unused, dead_code, non_snake_case, unused_imports, unused_variables, unused_mut, unreachable_code)]",
                 ("gen", "header"))
         gen.add("use vstd::prelude::*;", ("gen", "header"))
@@ -242,6 +243,17 @@ class Unit:
         if kind == "const" and it.get("static_lifetime"):
             # N5: reference-typed const needs 'static spelled out inside verus!
             text = re.sub(r":\s*&\s*(?!')", ": &'static ", text, count=1)
+        if kind == "const" and it.get("const_stub_ensures"):
+            # N5: initialiser Verus cannot evaluate -> exec const with its value facts as ensures; the initialiser text is
+            # compared with the expected literal so that the assumed facts cannot drift from the code
+            mt = re.search(r"=\s*(.*?)\s*;\s*$", text.strip(), re.S)
+            if not mt or _one_line(mt.group(1)) != it["expect_init"]:
+                raise SpliceError("const %s: initialiser is not the expected literal %s" % (path, it.get("expect_init")))
+            head = text.strip()[:mt.start()].rstrip()
+            head = re.sub(r"\bconst\b", "exec const", head, count=1)
+            text = "#[verifier::external_body]\n%s\n    ensures %s\n{ %s }" % (head, it["const_stub_ensures"], mt.group(1))
+            gen.add(text, ("gen", "assumed-const-facts:" + path))
+            return
         if kind in ("struct", "enum") and "Clone" in dl and "Copy" not in dl and it.get("clone_companion", True):
             # N3: derived Clone on a non-Copy type has no Verus spec -> external_body impl stating it is structural
             new = [x for x in dl if x != "Clone"]
